@@ -83,5 +83,8 @@ def run_tasks(tasks, nproc=16):
         out = []
         for traces in pool.imap(_run, tasks):
             for t in traces:
-                (CRASHES if "crashed" in t else out).append(t)
+                if "crashed" in t:
+                    CRASHES.append(t)
+                elif t.get("events"):               # a trace without events has nothing to judge
+                    out.append(t)
     return out
